@@ -145,7 +145,10 @@ def monitor_noref(lines, out):
     want = spec_contribs(P, iref); scale = spec_hv(P, iref)
     for name in ("s_disp", "l_disp"):
         v = f.get(name, "-")
-        if v in ("EXC", "STDEXC"): continue      # rejecting the request is acceptable
+        if v in ("EXC", "STDEXC"):
+            # k <= number of points is a request the selection operators rely on (IndicatorBasedSelection discards extreme points
+            # of small fronts): since /repo commit 1a2ef572 it is answered by appending the extreme points last
+            msgs.append("%s (no reference point) k=%d n=%d d=%d is rejected (%s) although the set has k points" % (name, keff, n, d, v)); continue
         try: got = kvlist(v)
         except ValueError: msgs.append("%s unparsable %s" % (name, v)); continue
         if len(got) != keff: msgs.append("%s (no reference point) returned %d entries for k=%d" % (name, len(got), keff)); continue
